@@ -55,6 +55,18 @@ contract(FC + "::OperationContext.enter_phase", "C14", raises=[], ensures={"phas
 contract(FC + "::OperationContext.set_result", "C14", params={"result": "any"}, raises=[], ensures={})     # (its parameter is called `result`: no clause about it, the name is the return value in a postcondition)
 contract(FT + "::ResourceLock._add_to_waiting", "C14", self_type="ResourceLockW", raises=[], modifies=["self.waiting_list"], ensures={})
 
+# the two registry invariants the kill / shutdown / watchdog contracts assume are ESTABLISHED here: a lock is registered under its own id, an operation is
+# listed under its own id (and starts owning and tracking nothing of its own making); both leave every other entry alone (arbitrary key r0)
+contract(FC + "::CellCycleController.register_resource", "C14", params={"lock": "obj:ResourceLock"}, ghost_params={"r0": "str"}, raises=[], modifies=["self.resources"],
+         ensures={"registered-under-its-own-id": "lock.resource_id in self.resources and self.resources[lock.resource_id] is lock",
+                  "other-entries-untouched": "implies(r0 != lock.resource_id, (r0 in self.resources) == (r0 in old(self).resources) and "
+                                             "implies(r0 in self.resources, self.resources[r0] is old(self).resources[r0]))"})
+contract(FC + "::CellCycleController.start_operation", "C14", ghost_params={"r0": "str"}, raises=[], modifies=["self.active_operations"],
+         ensures={"listed-under-its-own-id": "operation_id in self.active_operations and self.active_operations[operation_id] is result and "
+                                             "result.operation_id == operation_id",
+                  "starts-tracking-nothing": "len(result.acquired_resources) == 0 and result.resources_acquired is False",
+                  "other-operations-untouched": "implies(r0 != operation_id, (r0 in self.active_operations) == (r0 in old(self).active_operations))"})
+
 # ------------------------------------------------------------------ controller
 contract(FC + "::CellCycleController.acquire_resource", "C14",
          params={"ctx": "obj:OperationContext"}, pre_state=ALIAS, callbacks=GRAPH, raises=["ValueError"],
